@@ -54,6 +54,10 @@ BASE = ["A", "B", "a", "{a+b}", "b"]
 SPECIAL = [("2.5", "a"), ("B", "A"), ("b", "A", "a"), ("poly(a,2)",), ("bs(a,df=4)",), ("D",), ("D", "A")]
 
 
+# factors that evaluate to numerical (not categorical, not constant) values: the keys of `cluster_by="numerical_factors"`
+NUMERICAL = {"a", "b", "{a+b}", "poly(a,2)", "bs(a,df=4)", "`ns:qty`", "`ns:price`", "`w v`", "`p.q`"}
+UCLUSTER = [("a",), ("b",), ("A",), ("A", "a"), ("A", "b"), ("a", "b"), ("B",), ("poly(a,2)",), ("2.5", "a")]
+
 QPOOL = ["`ns:qty`", "`ns:price`", "`c:d`", "`w v`", "A", "a"]
 QSECOND = [None, ("`p.q`", "`ns:qty`")]
 
@@ -183,6 +187,7 @@ def drv(c, ctx, col):
     efr = not c.flag()
     fi = c.pick(ctx.get("frame_ids", [0, 1]))
     data = ctx["frames"][fi]
+    cluster = c.pick(ctx.get("cluster_by") or ["none"])
 
     # ---- scope ------------------------------------------------------------
     if len({canon(t) for t in terms}) != len(terms):
@@ -207,13 +212,23 @@ def drv(c, ctx, col):
         lst = [written(t) if t else "1" for t in exp_terms]
         spec_in = Formula(lst, _ordering="none")
         desc = "model_matrix(Formula(%r, _ordering='none'), data)" % (lst,)
-    cfg = "output=%s ensure_full_rank=%s frame=%d" % (output, efr, fi + 1)
+    formula_order = list(exp_terms)
+    if cluster == "numerical_factors":
+        # documented (patsy-like) clustering: terms are grouped by the numerical factors they contain, groups in order of
+        # first appearance, terms inside a group in formula order; the generated columns (and the index ranges) follow it
+        groups = {}
+        for t in exp_terms:
+            groups.setdefault(tuple(f for f in t if f in NUMERICAL), []).append(t)
+        exp_terms = [t for g in groups.values() for t in g]
+        if exp_terms != formula_order:
+            col.count("clustering-reorders-terms")
+    cfg = "output=%s ensure_full_rank=%s frame=%d" % (output, efr, fi + 1) + ("" if cluster == "none" else " cluster_by=%s" % cluster)
     where = "%s %s" % (desc, cfg)
     repro_head = ("import pandas as pd; from formulaic import *; data = pd.DataFrame(%r).astype({'A': object, 'B': object, 'D': object, 'c:d': object}); "
                   "ms = %s.model_spec; "
-                  % (data.to_dict("list"), desc.replace("data)", "data, output=%r, ensure_full_rank=%r)" % (output, efr))))
+                  % (data.to_dict("list"), desc.replace("data)", "data, output=%r, ensure_full_rank=%r, cluster_by=%r)" % (output, efr, cluster))))
     try:
-        mm = model_matrix(spec_in, data, output=output, ensure_full_rank=efr)
+        mm = model_matrix(spec_in, data, output=output, ensure_full_rank=efr, cluster_by=cluster)
     except Exception as e:  # noqa: BLE001
         col.count("build-error:" + type(e).__name__)
         col.violation("build :: " + where, {"error": repr(e)[:300], "repro": repro_head}, sig="universe-formula-does-not-materialize")
@@ -244,9 +259,11 @@ def drv(c, ctx, col):
     # ---- 2. per-term index ranges -------------------------------------------
     ti = ms.term_indices
     keys = list(ti)
-    if [str(k) for k in keys] != [printed(t) if t else "1" for t in exp_terms] or [str(t) for t in ms.terms] != [str(k) for k in keys]:
+    pr = lambda ts: [printed(t) if t else "1" for t in ts]  # noqa: E731
+    if [str(k) for k in keys] != pr(exp_terms) or [str(t) for t in ms.terms] != pr(formula_order):
         bad("term-order", "terms", {"term_indices_keys": [str(k) for k in keys], "spec_terms": [str(t) for t in ms.terms],
-                                    "expected": [printed(t) if t else "1" for t in exp_terms], "expr": "print(ms.term_indices)"})
+                                    "expected_column_generation_order": pr(exp_terms), "expected_formula_order": pr(formula_order),
+                                    "expr": "print(ms.term_indices)"})
         return
     pos = 0
     ok = True
@@ -436,6 +453,142 @@ def check_subsets(ctx, col, bad, ms, mm, data, output, keys, exp_terms, P, names
                                                                "want_terms": [str(keys[i]) for i in want_order], "expr": expr})
 
 
+# ----------------------------------------------------------------------------
+# re-use of a fitted spec (and of its subsets) on data other than the training data
+
+def _onehot(s):
+    """context transform: one indicator column per observed value, in order of FIRST APPEARANCE (so the order of the
+    generated sub-columns depends on the row order of the data)"""
+    return {lvl: (s == lvl).astype(float) for lvl in s.unique()}
+
+
+REUSE_CONTEXT = {"onehot": _onehot}
+REUSE_TRAIN = {
+    "x": [1.0, 2.0, 4.0, 7.0],
+    "z": [3.0, -1.0, 0.5, 6.0],
+    "g": ["u", "v", "w", "u"],
+    "A": ["p", "q", "q", "r"],
+}
+# terms whose values are a row-wise function of the data once the state (means, scales, polynomial coefficients, levels)
+# recorded at training time is re-used; several have their stateful call NESTED inside another call
+REUSE_TERMS = ["x", "onehot(g)", "x:onehot(g)", "I(center(z) ** 2)", "np.log(scale(x) + 10)", "center(z)", "A", "poly(x, 2)",
+               "A:onehot(g)", "C(g)"]
+# one row list per order of first appearance of the three levels of g (u=row 0/3, v=row 1, w=row 2); every list keeps all
+# rows and repeats one, so that column means / scales of the new data differ from the training data
+REUSE_ROWS = [[0, 1, 2, 3, 1], [0, 2, 1, 3, 2], [1, 0, 2, 3, 0], [1, 2, 3, 0, 2], [2, 0, 1, 3, 3], [2, 1, 0, 3, 1]]
+
+
+def drv_reuse(c, ctx, col):
+    from formulaic import model_matrix
+
+    T = ctx["terms"]
+    i = c.choose(len(T))
+    n2 = c.choose(len(T) + 1)  # 0 = single term
+    terms = [T[i]]
+    if n2:
+        j = n2 - 1
+        if j == i or (not ctx["ordered"] and j < i):
+            raise Skip()
+        terms.append(T[j])
+    if ctx["three"]:
+        n3 = c.choose(len(T) + 1)
+        if n3:
+            k = n3 - 1
+            if len(terms) < 2 or k <= (n2 - 1) or k == i:
+                raise Skip()
+            terms.append(T[k])
+    icpt = c.flag()
+    efr = not c.flag()
+    output = c.pick(ctx["outputs"])
+    rows = c.pick(REUSE_ROWS)
+    text = " + ".join(terms) + ("" if icpt else " - 1")
+    train = pd.DataFrame({k: pd.Series(v, dtype=object if k in ("g", "A") else float) for k, v in REUSE_TRAIN.items()})
+    new = train.iloc[rows].reset_index(drop=True)
+    cfg = "output=%s ensure_full_rank=%s new_data=training rows %r" % (output, efr, rows)
+    where = "%r %s" % (text, cfg)
+    repro = ("import pandas as pd, numpy as np; from formulaic import *; onehot = lambda s: {l: (s == l).astype(float) for l in s.unique()}; "
+             "train = pd.DataFrame(%r).astype({'g': object, 'A': object}); new = train.iloc[%r].reset_index(drop=True); "
+             "spec = model_matrix(%r, train, output=%r, ensure_full_rank=%r).model_spec; "
+             % (REUSE_TRAIN, rows, text, output, efr))
+    col.sample({"formula": text, "config": cfg})
+
+    def bad(sig, what, detail):
+        detail = dict(detail, formula=text, config=cfg)
+        detail.setdefault("repro", repro + detail.pop("expr", ""))
+        col.violation("%s :: %s :: %s" % (sig, what, where), detail, sig=sig)
+
+    try:
+        parent = model_matrix(text, train, context=REUSE_CONTEXT, output=output, ensure_full_rank=efr)
+    except Exception as e:  # noqa: BLE001
+        bad("universe-formula-does-not-materialize", "fit", {"error": repr(e)[:300]})
+        return
+    spec = parent.model_spec
+    names = list(spec.column_names)
+    keys = list(spec.term_indices)
+    P = [list(spec.term_indices[k]) for k in keys]
+    pvals = dense(parent, output)
+    want_full = pvals[rows, :]  # every term is row-wise given the training state
+    col.interesting()
+
+    def compare(label, mm, want_names, want_vals, expr):
+        got_names = list(mm.model_spec.column_names)
+        labels = list(mm.columns) if output == "pandas" else None
+        if got_names != want_names or (labels is not None and labels != want_names):
+            bad("reuse-column-names-differ", label, {"reported_column_names": got_names, "labels": labels, "want_names": want_names, "expr": expr})
+            return
+        vals = dense(mm, output)
+        if not same_values(vals, want_vals):
+            wrong = [want_names[q] for q in range(len(want_names))
+                     if vals.shape != want_vals.shape or not np.allclose(vals[:, q], want_vals[:, q], rtol=1e-9, atol=1e-12, equal_nan=True)]
+            bad("reuse-values-differ", label, {"columns_with_wrong_values": wrong, "got": vals.tolist(), "want": want_vals.tolist(), "expr": expr})
+        for q, nm in enumerate(want_names):  # the metadata of the re-used spec must index the regenerated columns
+            if want_names.count(nm) == 1 and mm.model_spec.column_indices.get(nm) != q:
+                bad("reuse-column-index-wrong", "%s column %r" % (label, nm), {"got": mm.model_spec.column_indices.get(nm), "want": q, "expr": expr})
+
+    # the full spec on the new data == the training matrix's rows (same names, labels, values)
+    try:
+        full = spec.get_model_matrix(new, context=REUSE_CONTEXT)
+    except Exception as e:  # noqa: BLE001
+        bad("reuse-fails", "full spec", {"error": "%s: %s" % (type(e).__name__, str(e)[:200]), "expr": "spec.get_model_matrix(new)"})
+        return
+    col.count("reuse-materializations")
+    compare("full spec on new data", full, names, want_full, "print(spec.get_model_matrix(new))")
+
+    # every non-empty subset on the new data == the parent's columns for S on the same new data
+    nt = len(keys)
+    for mask in range(1, 2 ** nt):
+        S = [q for q in range(nt) if mask >> q & 1]
+        if len(S) == nt and nt > 1:
+            order = S[::-1]
+            kw = {"ordering": "none"}
+        else:
+            order = sorted(S, key=lambda q: keys[q].degree)
+            kw = {}
+        idx = [p for q in order for p in P[q]]
+        arg = [keys[q] for q in (S[::-1] if kw else S)]
+        what = "subset(%r%s) on new data" % ([str(a) for a in arg], ", ordering='none'" if kw else "")
+        expr = "sub = spec.subset(%r%s); print(sub.get_model_matrix(new))" % ([str(a) for a in arg], ", ordering='none'" if kw else "")
+        try:
+            sub = spec.subset(arg, **kw)
+            smm = sub.get_model_matrix(new, context=REUSE_CONTEXT)
+        except Exception as e:  # noqa: BLE001
+            bad("reuse-fails", what, {"error": "%s: %s" % (type(e).__name__, str(e)[:200]), "expr": expr})
+            continue
+        col.count("reuse-materializations")
+        compare(what, smm, [names[p] for p in idx], want_full[:, idx], expr)
+
+
+def reuse_subs(tier):
+    quick = tier == "quick"
+    ctx = {"terms": REUSE_TERMS, "ordered": not quick, "three": not quick, "outputs": ["pandas"] if quick else ["pandas", "numpy", "sparse"]}
+    return [Sub("reuse-new-data", drv_reuse, ctx, shard_depth=2,
+                bounds={"terms": REUSE_TERMS, "formulas": "1..2 terms (unordered pairs)" if quick else "1..3 terms (ordered pairs; third term after the second)",
+                        "intercept": [True, False], "ensure_full_rank": [True, False], "outputs": ctx["outputs"],
+                        "training_rows": REUSE_TRAIN, "new_data": "training rows re-arranged as %r (every order of first appearance of the levels of g; one row repeated)" % (REUSE_ROWS,),
+                        "checks": "full spec and every non-empty term subset re-used on the new data: names == labels == parent's names, "
+                                  "values == the training matrix's rows, column_indices of the re-used spec"})]
+
+
 USUB = [("A",), ("a",), ("A", "a"), ("B", "A"), ("b", "A", "a"), ("{a+b}",), ("2.5", "a"), ("poly(a,2)",),
         ("bs(a,df=4)",), ("D",), ("D", "A"), ("A", "B")]
 USUB3 = [("A",), ("a",), ("A", "a"), ("B", "A"), ("b", "A", "a"), ("2.5", "a"), ("poly(a,2)",), ("D",)]
@@ -449,23 +602,27 @@ def subchecks(tier, seed):
     UQ2 = [t for t in UQ if len(t) <= 2]
     QNOTE = ("names that need back-quotes (':' , ' ', '.'): every ordered sequence of 1..3 distinct factors of %r with at least one "
              "back-quoted name, i.e. quoted factors in first / middle / last position" % (QPOOL,))
-    for t in U3 + USUB + UQ:  # the hand-written table must describe every universe term
+    CNOTE = ("cluster_by is the one ModelSpec option (besides ensure_full_rank) that changes the order in which columns are generated: "
+             "the structure / index ranges follow the clustered order while spec.terms keeps the formula order")
+    for t in U3 + USUB + UQ + UCLUSTER:  # the hand-written table must describe every universe term
         for f in t:
             assert f in FACTORS
     W = lambda U: [written(t) for t in U]  # noqa: E731
     ALLOUT = ["pandas", "numpy", "sparse"]
 
-    def sub(name, checks, U, nmin, nmax, outputs, frame_ids, shard_depth, first=None, note=None, second=None):
+    def sub(name, checks, U, nmin, nmax, outputs, frame_ids, shard_depth, first=None, note=None, second=None, cluster_by=None):
         b = {"checks": checks, "terms_per_formula": "%d..%d (+ intercept)" % (nmin, nmax), "universe": W(U), "outputs": outputs,
              "ensure_full_rank": [True, False], "frames": [i + 1 for i in frame_ids], "forms": FORMS}
         if first is not None:
             b["first_term"] = written(first)
         if note:
             b["note"] = note
+        if cluster_by:
+            b["cluster_by"] = cluster_by
         if second:
             b["optional_extra_term"] = [written(t) if t else None for t in second]
         return Sub(name, drv, {"universe": U, "nmin": nmin, "nmax": nmax, "frames": fr, "outputs": outputs, "frame_ids": frame_ids,
-                               "checks": checks, "first": first, "second": second}, shard_depth=shard_depth, bounds=b)
+                               "checks": checks, "first": first, "second": second, "cluster_by": cluster_by}, shard_depth=shard_depth, bounds=b)
 
     if tier == "quick":
         first = U3[seed % len(U3)]
@@ -478,7 +635,8 @@ def subchecks(tier, seed):
                 note="VERIF_SEED-selected exhaustive slice (first term fixed) of the 3-term scope"),
             sub("meta-quoted-names", ["metadata"], UQ, 1, 1, ["pandas"], [0], 2, second=QSECOND, note=QNOTE),
             sub("subsets-quoted-names", ["subsets"], UQ2, 1, 1, ["pandas"], [1], 2, second=QSECOND, note=QNOTE),
-        ]
+            sub("meta-cluster", ["metadata"], UCLUSTER, 2, 3, ["pandas"], [0], 3, cluster_by=["numerical_factors"], note=CNOTE),
+        ] + reuse_subs(tier)
     return [
         sub("meta-le2", ["metadata"], U3, 0, 2, ALLOUT, [0, 1], 3),
         sub("meta-3", ["metadata"], U2, 3, 3, ["pandas"], [0], 3),
@@ -487,4 +645,5 @@ def subchecks(tier, seed):
         sub("subsets-3", ["subsets"], USUB3, 3, 3, ["pandas"], [0], 3),
         sub("meta-quoted-names", ["metadata"], UQ, 1, 1, ALLOUT, [0, 1], 2, second=QSECOND + [("`ns:price`",), ("a",)], note=QNOTE),
         sub("subsets-quoted-names", ["subsets"], UQ, 1, 1, ["pandas", "sparse"], [1], 2, second=QSECOND, note=QNOTE),
-    ]
+        sub("meta-cluster", ["metadata", "subsets"], UCLUSTER, 2, 3, ALLOUT, [0, 1], 3, cluster_by=["numerical_factors"], note=CNOTE),
+    ] + reuse_subs(tier)
